@@ -7,6 +7,7 @@ pub mod c01;
 pub mod c01pipe;
 pub mod c02;
 pub mod c02bp;
+pub mod c02credit;
 pub mod c02h3;
 pub mod c02real;
 pub mod c02sess;
